@@ -199,8 +199,8 @@ def judge(res, osy, ds, info, region, label, before, exact=False):
         want = np.argwhere(inside).ravel()
         for key in g.keys():
             a, b = g[key], sg[key]
-            ca = [a] if type(a).__name__ == "Array" else list(a._xyz.values())
-            cb = [b] if type(b).__name__ == "Array" else list(b._xyz.values())
+            ca = [a] if type(a).__name__ == "Array" else [getattr(a, c_) for c_ in "xyz" if getattr(a, c_) is not None]
+            cb = [b] if type(b).__name__ == "Array" else [getattr(b, c_) for c_ in "xyz" if getattr(b, c_) is not None]
             if type(a) is not type(b) or len(ca) != len(cb):
                 res.violate("member-type", f"{label}: {gname}[{key!r}] changed type")
                 break
